@@ -688,17 +688,20 @@ private:
 
       _tasks.emplace(std::move(f));
 
-      // Check if we should spawn a new thread
-      if (_threads.size() < _maxSize)
+      // Check if we should spawn a new thread. Workers whose spawn has been
+      // decided but which are not yet registered in _threads count as well,
+      // otherwise concurrent submitters can exceed _maxSize.
+      if (_threads.size() + _pendingSpawns < _maxSize)
       {
         shouldSpawn = true;
+        ++_pendingSpawns;
       }
     } // Release mutex here
 
     // Spawn outside of the lock to avoid deadlock
     if (shouldSpawn)
     {
-      spawnWorker();
+      spawnWorker(true);
     }
 
     _condition.notify_one();
@@ -727,25 +730,44 @@ private:
 
       _tasks.emplace(std::move(f));
 
-      // Check if we should spawn a new thread
-      if (_threads.size() < _maxSize)
+      // Check if we should spawn a new thread. Workers whose spawn has been
+      // decided but which are not yet registered in _threads count as well,
+      // otherwise concurrent submitters can exceed _maxSize.
+      if (_threads.size() + _pendingSpawns < _maxSize)
       {
         shouldSpawn = true;
+        ++_pendingSpawns;
       }
     } // Release mutex here
 
     // Spawn outside of the lock to avoid deadlock
     if (shouldSpawn)
     {
-      spawnWorker();
+      spawnWorker(true);
     }
 
     _condition.notify_one();
     return true;
   }
 
-  void spawnWorker()
+  void spawnWorker(bool reserved = false)
   {
+    // Releases the slot reserved by enqueueImpl()/tryEnqueueImpl() once the
+    // worker is registered in _threads (or if thread creation throws).
+    struct ReservationGuard
+    {
+      ThreadPool &pool;
+      bool active;
+      ~ReservationGuard()
+      {
+        if (active)
+        {
+          std::lock_guard<std::mutex> lock(pool._mutex);
+          --pool._pendingSpawns;
+        }
+      }
+    } reservation{*this, reserved};
+
     std::thread t(
       [this]()
       {
@@ -929,6 +951,11 @@ private:
     std::lock_guard<std::mutex> lock(_mutex);
     auto threadId = t.get_id();
     _threads.emplace(threadId, std::move(t));
+    if (reservation.active)
+    {
+      --_pendingSpawns;
+      reservation.active = false;
+    }
 
     // NOTE: Exit acknowledgment flag is initialized INSIDE the lambda (at thread start)
     // to avoid race condition. Do NOT initialize it here!
@@ -1144,6 +1171,7 @@ private:
 private:
   std::unordered_map<std::thread::id, std::thread> _threads;
   std::queue<std::function<void()>> _tasks;
+  std::size_t _pendingSpawns{0}; // spawns decided but not yet in _threads (guarded by _mutex)
   mutable std::mutex _mutex;
   std::condition_variable _condition;
 
